@@ -149,6 +149,55 @@ def cas_atomic_rule(ctx, rule, label="cas"):
 MODELS = "optuna.storages._rdb.models"
 
 
+def cas_rdb_atomic_rule(ctx, rule, label="cas"):
+    """RDB backend: every read of the stored trial's state in set_trial_state_values is made on the row fetched with for_update=True, inside the
+    session region (= transaction) that also writes the new state. A state test on a plain read, or in an earlier transaction, decides on a
+    value that another worker may have changed before this worker's write: two workers both pass and both write RUNNING."""
+    from sa.util import enclosing_with_items
+    p = ctx.program
+    cls = p.cls(RDB)
+    f = cls.methods.get("set_trial_state_values")
+    ctx.require(f is not None, f"{rule}: RDBStorage.set_trial_state_values vanished")
+    pm = parent_map(f.node)
+
+    def region(n):
+        regs = [it for it in enclosing_with_items(n, pm) if isinstance(it.context_expr, ast.Call) and (dotted(it.context_expr.func) or "").endswith("_create_scoped_session")]
+        return regs[-1] if regs else None
+
+    def is_fetch(c):
+        return isinstance(c, ast.Call) and isinstance(c.func, ast.Attribute) and c.func.attr == "find_or_raise_by_id" and "TrialModel" in norm(c.func.value)
+
+    def locked(c):
+        return any(k.arg == "for_update" and isinstance(k.value, ast.Constant) and k.value.value is True for k in c.keywords) or (
+            len(c.args) > 2 and isinstance(c.args[2], ast.Constant) and c.args[2].value is True)
+    fetch_of = {}
+    for n in own_nodes(f.node):
+        if isinstance(n, ast.Assign) and len(n.targets) == 1 and isinstance(n.targets[0], ast.Name) and is_fetch(n.value):
+            fetch_of.setdefault(n.targets[0].id, []).append(n.value)
+    stores = [n for n in own_nodes(f.node) if isinstance(n, ast.Assign) and any(isinstance(t, ast.Attribute) and t.attr == "state" and isinstance(t.value, ast.Name)
+                                                                               and t.value.id in fetch_of for t in n.targets)]
+    ctx.require(stores, f"{rule}: RDBStorage.set_trial_state_values no longer assigns <row>.state")
+    wreg = {id(region(s)) for s in stores}
+    n_reads = 0
+    for x in own_nodes(f.node):
+        if not (isinstance(x, ast.Attribute) and x.attr == "state" and isinstance(x.ctx, ast.Load)):
+            continue
+        if isinstance(x.value, ast.Name) and x.value.id in fetch_of:
+            fetches = fetch_of[x.value.id]
+        elif is_fetch(x.value):
+            fetches = [x.value]
+        else:
+            continue
+        n_reads += 1
+        ok = all(locked(c) for c in fetches) and region(x) is not None and id(region(x)) in wreg and len(wreg) == 1
+        ctx.check(ok, rule, f.short, f"{label}:state-tested-on-the-locked-row-in-the-writing-transaction",
+                  message=f"RDBStorage.set_trial_state_values reads the stored state (`{norm(x)[:60]}`, line {x.lineno}) on a row that was not fetched for update in the "
+                          f"transaction that writes the new state: the test and the write are not atomic, so two workers racing for one WAITING trial can both pass the "
+                          f"test and both set RUNNING (a queued trial runs twice)",
+                  how="read on the for_update=True fetch, same _create_scoped_session block as `<row>.state = state`", where=where(f, x))
+    ctx.floor(rule, "rdb_stored_state_reads", n_reads, 2)
+
+
 def cas_dialect_rule(ctx, rule, label="cas"):
     """RDB backend: what makes read-state / test / write-state atomic must work on every SQL dialect the
     storage accepts. Today it is `SELECT ... FOR UPDATE` (find_or_raise_by_id(for_update=True) ->
